@@ -93,6 +93,17 @@ Shapes(i) == {
     \* a table: the key selects the row, the row's data object / structure describes the content; row3 has neither
     <<TabKey(Nm("k", i), -1, Tab1), TabStruct(Nm("t", i), -1, Tab1, Nm("k", i))>>,
     <<TabKey(Nm("k", i), -1, Tab2), TabStruct(Nm("t", i), -1, Tab2, Nm("k", i))>>,
+    \* a trouble code followed by its environment data: one parameter common to all codes, one or two per code
+    <<Value(Nm("d", i), -1, -1, [k |-> "dtc", dct |-> U8, codes |-> <<1, 2, 3>>]),
+      Value(Nm("e", i), -1, -1, [k |-> "envdesc", ref |-> Nm("d", i), hasall |-> TRUE,
+                                 all |-> <<Value("common", -1, -1, SimpleA(U8, {IntV(9)}))>>,
+                                 per |-> <<[codes |-> {1}, ps |-> <<Value("x", -1, -1, SimpleA(U8, {IntV(4), IntV(5)}))>>],
+                                           [codes |-> {2}, ps |-> <<Value("y", -1, -1, SimpleA(Std("uint", "NONE", 16, TRUE), {IntV(258)})),
+                                                                    Value("z", -1, -1, SimpleA(U8, {IntV(7)}))>>]>>])>>,
+    \* ... the same without common parameters, selected by a plain unsigned value instead of a DTC object
+    <<Value(Nm("d", i), -1, -1, SimpleA(U8, {IntV(1), IntV(6)})),
+      Value(Nm("e", i), -1, -1, [k |-> "envdesc", ref |-> Nm("d", i), hasall |-> FALSE, all |-> <<>>,
+                                 per |-> <<[codes |-> {1, 4}, ps |-> <<Value("x", -1, -1, SimpleA(U8, {IntV(4)}))>>]>>])>>,
     \* a DTC object: 24 bit trouble codes, of which the description defines three
     <<Value(Nm("d", i), -1, -1, [k |-> "dtc", dct |-> Std("uint", "NONE", 24, TRUE), codes |-> <<1, 66051, 16777215>>])>>,
     <<Value(Nm("d", i), -1, 4, [k |-> "dtc", dct |-> Std("uint", "NONE", 12, FALSE), codes |-> <<2, 291>>])>>,
